@@ -469,32 +469,38 @@ def deleted_observed(ctx, esc, rule):
     from ..typestate import States
     S = States(ctx.prog)
     sites = 0
+    ctrl_cls = ctx.prog.cls('ikesacontroller.IkeSaController')
     for q in ('ikesacontroller.IkeSaController.dispatch_message', 'ikesacontroller.IkeSaController.main_loop'):
-        fi = ctx.func(q)
-        g = esc.add_exception_edges(fi)
+        root = ctx.func(q)
+        # the teardown may live in the entry point itself or in a private helper of the controller it calls
+        helpers = [ctx.prog.functions[x] for x in sorted(esc.reach([root])) if x in ctx.prog.functions
+                   and ctx.prog.functions[x].cls is ctrl_cls and x != q
+                   and x not in ('ikesacontroller.IkeSaController.dispatch_message', 'ikesacontroller.IkeSaController.main_loop')]
         found = False
-        for c in g.nodes:
-            if c.kind != 'cond':
-                continue
-            ev = S.eval_cond(c.ast)
-            if ev is None or ev[1] != frozenset(['DELETED']):
-                continue
-            subj = ev[0].rsplit('.', 1)[0]
-            tnodes = g.reach([m for lab, m in c.succ if lab == 'T'], blocked_nodes=[c], follow_exc=False)
-            dele = [n for n, x in nodes_calling(ctx, fi, g, calls_named('delete_child_sas'))
-                    if n.id in tnodes and src(x.func.value) == subj and dominated_by_edge(g, n, c, 'T')]
-            rem = [n for n, x in nodes_calling(ctx, fi, g, calls_named('remove'))
-                   if n.id in tnodes and src(x.func.value).endswith('ike_sas') and x.args and src(x.args[0]) == subj
-                   and dominated_by_edge(g, n, c, 'T')]
-            if dele and rem:
-                found = True
-                sites += 1
-                # delete before remove
-                order_ok = all(r.id in g.reach([d]) for d in dele for r in rem)
-                ctx.check(order_ok, rule, '%s: DELETED `%s` is torn down (delete_child_sas then removal from ike_sas)'
-                          % (q.split('.')[-1], subj), key=(rule, q, 'teardown-order'), site=ctx.site(fi, c.ast))
+        for fi in [root] + helpers:
+          g = esc.add_exception_edges(fi)
+          for c in g.nodes:
+              if c.kind != 'cond':
+                  continue
+              ev = S.eval_cond(c.ast)
+              if ev is None or ev[1] != frozenset(['DELETED']):
+                  continue
+              subj = ev[0].rsplit('.', 1)[0]
+              tnodes = g.reach([m for lab, m in c.succ if lab == 'T'], blocked_nodes=[c], follow_exc=False)
+              dele = [n for n, x in nodes_calling(ctx, fi, g, calls_named('delete_child_sas'))
+                      if n.id in tnodes and src(x.func.value) == subj and dominated_by_edge(g, n, c, 'T')]
+              rem = [n for n, x in nodes_calling(ctx, fi, g, calls_named('remove'))
+                     if n.id in tnodes and src(x.func.value).endswith('ike_sas') and x.args and src(x.args[0]) == subj
+                     and dominated_by_edge(g, n, c, 'T')]
+              if dele and rem:
+                  found = True
+                  sites += 1
+                  # delete before remove
+                  order_ok = all(r.id in g.reach([d]) for d in dele for r in rem)
+                  ctx.check(order_ok, rule, '%s: DELETED `%s` is torn down (delete_child_sas then removal from ike_sas)'
+                            % (q.split('.')[-1], subj), key=(rule, q, 'teardown-order'), site=ctx.site(fi, c.ast))
         ctx.check(found, rule, '%s tears down an IKE_SA observed in state DELETED' % q.split('.')[-1],
-                  key=(rule, q, 'no-teardown'), site=ctx.site(fi, fi.node))
+                  key=(rule, q, 'no-teardown'), site=ctx.site(root, root.node))
     # every removal from ike_sas is paired with delete_child_sas on the same object
     ctrl = ctx.prog.cls('ikesacontroller.IkeSaController')
     for fi in ctrl.methods.values():
